@@ -42,6 +42,81 @@ def classify_parse(s, want, got):
         return "parse-raises-%s" % got[1]
     return "parse-wrong-instant"
 
+EPOCH = 1900000000
+
+def timing_scenarios(tier):
+    import copy
+    from harness.corpus import chain, Task, Pass, Wait, Parallel, Map, scenario, multi, OK, ERR, NONE
+    out = []
+    Z = ("Z", Pass())
+    other = chain(("OW", Wait(3)), ("OZ", Pass()))
+    def two(name, d, inp=None, workers=None, budget=2, **kw):
+        sc = multi(name, {"m": {"definition": d}, "o": {"definition": other}},
+                   [{"machine": "m", "name": "e1", "input": {} if inp is None else inp}, {"machine": "o", "name": "e2", "input": {}}],
+                   workers=workers or {}, family=name, schedule="timed", delay_budget=budget, **kw)
+        out.append(sc)
+    for n in (0, 1, 5):
+        two("wait-seconds-%d" % n, chain(("A", Pass()), ("W", Wait(n)), Z))
+    two("wait-secondspath", chain(("W", Wait(SecondsPath="$.s")), Z), inp={"s": 2})
+    from ref import rfc3339
+    for nm, off, tzo in (("past", -5, None), ("now", 0, 330), ("future", 4, -225), ("future-frac", 2.5, 0)):
+        ts = rfc3339.fmt(EPOCH + off, tzo, 3 if isinstance(off, float) else 0)
+        two("wait-timestamp-" + nm, chain(("W", Wait(Timestamp=ts)), Z))
+    two("wait-timestamppath", chain(("W", Wait(TimestampPath="$.t", InputPath="$.in")), Z), inp={"in": {"t": rfc3339.fmt(EPOCH + 4, 330)}})
+    # Task time-out versus a slow worker: reply before / at / after the deadline, every order of reply and timer
+    for hname, h in (("plain", {}), ("catch", {"Catch": [{"ErrorEquals": ["States.Timeout"], "Next": "Z", "ResultPath": "$.e"}]}),
+                     ("retry", {"Retry": [{"ErrorEquals": ["States.Timeout"], "IntervalSeconds": 1, "MaxAttempts": 1}]})):
+        d = chain(("T", Task("f1", TimeoutSeconds=3, **h)), Z)
+        two("task-timeout-slow-worker-" + hname, d, workers={"f1": {"*": [["delay", ["ok", {"r": 1}]]]}})
+        two("task-timeout-never-" + hname, d, workers={"f1": {"*": NONE}}, budget=1)
+    # execution time-out inside a Task / Wait / fan-out, with handlers that must not intercept it
+    ALL = {"Retry": [{"ErrorEquals": ["States.ALL"], "IntervalSeconds": 1, "MaxAttempts": 2}], "Catch": [{"ErrorEquals": ["States.ALL"], "Next": "Z"}]}
+    d = chain(("T", Task("f1", **ALL)), Z); d["TimeoutSeconds"] = 6
+    two("exec-timeout-in-task", d, workers={"f1": {"*": NONE}}, budget=1)
+    d = chain(("T", Task("f1", TimeoutSeconds=20, **ALL)), Z); d["TimeoutSeconds"] = 4
+    two("exec-timeout-before-task-timeout", d, workers={"f1": {"*": NONE}}, budget=1)
+    d = chain(("W", Wait(10)), Z); d["TimeoutSeconds"] = 4
+    two("exec-timeout-in-wait", d, budget=1)
+    d = chain(("P", Parallel([chain(("A1", Task("fa"))), chain(("B1", Wait(30)))], **ALL)), Z); d["TimeoutSeconds"] = 5
+    two("exec-timeout-in-parallel", d, workers={"fa": {"*": NONE}}, budget=1)
+    d = chain(("A", Pass()), ("T", Task("f1")), Z); d["TimeoutSeconds"] = 5
+    two("exec-timeout-not-reached", d, workers={"f1": {"*": OK(1)}})
+    # the same under a local time zone with a non-zero minute offset (every timestamp the engine writes carries +05:30)
+    base = [s for s in out if s["name"] in ("wait-seconds-1", "wait-timestamp-future", "task-timeout-slow-worker-plain", "exec-timeout-in-wait", "exec-timeout-in-task")]
+    for s0 in base:
+        s1 = copy.deepcopy(s0); s1["name"] += "@IST"; s1["family"] += "@IST"; s1["tz"] = "IST-5:30"
+        out.append(s1)
+    return out
+
+def run_timing(cr, tier, seed):
+    import copy
+    from . import c04
+    scs = timing_scenarios(tier)
+    jobs = []
+    by_name = {}
+    mons = ["M-time", "M-ref", "M-life"]
+    limits = {"max_states": 40000 if tier == "quick" else 400000, "max_depth": 400, "only": mons}
+    for sc in list(scs):
+        common.annotate(sc)
+        jobs.append((sc, None, limits)); by_name[sc["name"]] = sc
+        sp = copy.deepcopy(sc); sp["name"] += "@prompt"; sp["family"] += "@prompt"; sp["schedule"] = "prompt"; sp["delay_budget"] = 0
+        sp.pop("expect", None)
+        common.annotate(sp)
+        jobs.append((sp, None, limits)); by_name[sp["name"]] = sp
+    # redelivery after a crash: every crash point of the canonical run of the single-execution wait / task scenarios
+    for sc in scs:
+        if sc["name"] in ("wait-seconds-5", "wait-timestamp-future", "wait-secondspath"):
+            s0 = copy.deepcopy(sc); s0["schedule"] = "prompt"; s0["delay_budget"] = 0
+            labels, ops = c04.canonical(s0)
+            for k in range(len(labels) + 1):
+                s2 = copy.deepcopy(s0)
+                s2["name"] = "%s@crash%d" % (sc["name"], k); s2["family"] = sc["family"] + "@crash"; s2["preserve_outcome"] = True
+                lim = dict(limits, preamble=labels[:k] + [["crash", 1], ["restart", 1]], only=["M-time", "M-crash"])
+                jobs.append((s2, None, lim)); by_name[s2["name"]] = s2
+    outs = common.explore_many("checks.monsets", "timing", jobs, seed)
+    tot, samples = common.collect(cr, outs, by_name, lambda v: v["monitor"] in ("M-time", "M-ref", "M-life", "M-crash"), "timing")
+    return tot, samples, len(scs), len(jobs)
+
 def run(tier, seed):
     cr = common.CheckResult(PROP)
     cases = parse_cases(tier)
@@ -61,17 +136,27 @@ def run(tier, seed):
         sig = "parse|%s" % cls
         cr.add(sig, "%s parsed as %r, true instant %s" % (s, got, float(want)),
                {"kind": "parse", "property": PROP, "signature": sig, "input": s, "want": float(want), "got": list(got)}, size=len(s))
+    tot, tsamples, nsc, njobs = run_timing(cr, tier, seed)
     cr.coverage = {
+        "states": tot["states"], "transitions": tot["transitions"], "traces_validated_against_impl": tot["paths"],
+        "timing_scenarios": nsc, "timing_explorations": njobs, "capped": tot["capped"],
+        "timing_explanation": "firing clauses: Wait (Seconds/SecondsPath/Timestamp/TimestampPath, targets before/at/after now) with the event delivered at once, late "
+                              "(timed schedule class: the clock may advance while messages are pending, delay budget 1-2) and redelivered after a crash at every point; Task TimeoutSeconds versus a "
+                              "slow worker (reply before/at/after the deadline, all orders of reply and timer); execution TimeoutSeconds inside a Task / Wait / Parallel with States.ALL Retry+Catch present; "
+                              "a subset under TZ=IST-5:30; all interleavings closed; M-time compares instants on the virtual clock exactly",
         "evaluations": n, "distinct_nontrivial": len(distinct),
         "rule": "every UTC offset -23:59..+23:59 at minute granularity x {0,1,3,6} fraction digits x 2 base instants, Z / +00:00 / -00:00 forms, "
                 "7/9/12-digit fractions; distinct = distinct (fraction, offset) notations; oracle = exact rational instant from a strict RFC 3339 grammar",
-        "samples": samples or [{"timestamp": cases[0][0], "instant": float(cases[0][1])}],
+        "samples": (samples or [{"timestamp": cases[0][0], "instant": float(cases[0][1])}]) + tsamples[:2],
         "exhaustive": True,
     }
-    cr.assumptions = ["reference ref/rfc3339.py (strict grammar, exact rational arithmetic)"]
+    cr.assumptions = ["reference ref/rfc3339.py (strict grammar, exact rational arithmetic)"] + common.ASSUME_SIM
     return cr
 
 def replay(rp):
+    if rp.get("kind") == "engine":
+        from . import replay as R
+        return R.engine_replay(rp)
     if rp["kind"] == "parse":
         got = eval_parse(rp["input"])
         ok = got[0] == "ok" and abs(got[1] - rp["want"]) <= 1e-6
